@@ -31,14 +31,29 @@ def main(argv):
         for m in muts:
             t0 = time.time()
             subprocess.check_call(["git", "-C", wt, "checkout", "-q", "--", "."])
-            p = os.path.join(wt, m["file"])
-            src = open(p).read()
-            if src.count(m["old"]) != 1:
+            subprocess.check_call(["git", "-C", wt, "clean", "-fdq"])
+            if m.get("patch"):
+                r = subprocess.run(["git", "-C", wt, "apply", os.path.join(HERE, "selftest", "mutants", m["patch"])], stderr=subprocess.PIPE)
+                if r.returncode != 0:
+                    results.append({"id": m["id"], "status": "STALE", "detail": r.stderr.decode()[-300:]})
+                    print("%-40s STALE (patch does not apply)" % m["id"])
+                    bad += 1
+                    continue
+                src = None
+            else:
+                p = os.path.join(wt, m["file"])
+                src = open(p).read()
+            if src is None:
+                pass
+            elif src.count(m["old"]) != 1:
                 results.append({"id": m["id"], "status": "STALE", "detail": "anchor text occurs %d times" % src.count(m["old"])})
                 print("%-40s STALE (anchor text occurs %d times)" % (m["id"], src.count(m["old"])))
                 bad += 1
                 continue
-            open(p, "w").write(src.replace(m["old"], m["new"]))
+            else:
+                open(p, "w").write(src.replace(m["old"], m["new"]))
+            if False:
+                src = ""
             env = dict(os.environ, GPA_REPO=wt, GPA_EVIDENCE_DIR=ev)
             checks = m.get("all_checks") or [m["prop"]]
             fired = {}
